@@ -113,6 +113,21 @@ class Report:
         for h in self.harness_errors[:10]:
             print("HARNESS-ERROR property=%s %s" % (prop, h))
         cov = self.cov
+        if not self.args.replay and os.environ.get("VERIF_NO_SELFTEST") != "1":
+            # reduced determinism self-test (same spec twice in different processes, all simulated
+            # dimensions active): part of every run, DESIGN.md section 3
+            try:
+                sys.path.insert(0, os.path.join(VERIF, "checks"))
+                import selftest
+                st = selftest.mini(self.args.seed, 3 if self.args.tier == "quick" else 24)
+                cov["selftest"] = st
+                if st["mismatches"]:
+                    # affects exact replay only, never a verdict (verdicts compare digests of runs
+                    # made at one path): reported, but not an exit status
+                    print("warning: determinism self-test mismatch: %s" % st["details"])
+            except Exception as ex:  # noqa: BLE001
+                cov["selftest"] = {"error": repr(ex)}
+                print("warning: determinism self-test could not run: %r" % (ex,))
         cov["distinct_nontrivial"] = len(self.distinct)
         cov["runs_per_hour"] = int(cov["evaluations"] / wall * 3600) if wall > 0 else 0
         cov["counters"] = self.counters
